@@ -32,7 +32,7 @@ package keeper
 
 // Pool-creation fee: no parameter value accepted by validation may make this abort.
 //@ func Keeper.DeductPoolCreationFee(ctx, creator)
-//@   property C16, C06
+//@   property C16, C06, C05
 //@   returns err
 //@   requires paramsStored
 //@   let p = get(prm)
